@@ -3,6 +3,7 @@ package main
 // Verification of one function against its contract, and of lemmas over spec functions.
 
 import (
+	"sort"
 	"fmt"
 	"go/ast"
 	"go/token"
@@ -368,7 +369,16 @@ func (fc *FnCtx) checkLocksReleased(st *State, scopePos token.Pos) {
 	if cur == old {
 		return
 	}
-	fc.assertNamed(st, app("=", cur, old), "lock-balance", "", "every mutex is in the same state at exit as at entry (no lost unlock)", fc.decl.Pos())
+	var addrs []string
+	for a := range fc.touchedMu {
+		addrs = append(addrs, a)
+	}
+	sort.Strings(addrs)
+	var eqs []string
+	for _, a := range addrs {
+		eqs = append(eqs, app("=", app("select", cur, a), app("select", old, a)))
+	}
+	fc.assertNamed(st, and(eqs...), "lock-balance", "", "every mutex this function locks or unlocks is in the same state at exit as at entry (no lost unlock)", fc.decl.Pos())
 }
 
 // useLemma instantiates lemma(args): assumes requires ==> ensures for these arguments.
